@@ -27,17 +27,18 @@
    [C02_stream_integrity_flat], not for call histories.)
 
    Ring level, reader side ([dqueue_recv] = mpt_queue_recv: decoder call on the ring's fragments,
-   result stored back, mpt_queue_shift of the consumed prefix; [dqueue_message] = mpt_message_get):
-   every history of wire-ins and receives on a ring of any capacity and offset delivers, in
-   order, the reference decodings of the frames at the front of the accepted bytes
-   ([C02_ring_reader_delivers_partial]) and, composed with the writer, a prefix of the sent
-   messages ([C02_ring_to_ring_partial]).  PARTIAL: the history ends for these two theorems when
-   the decoder reports an error; that includes MissingBuffer, i.e. the recovery path of
-   mpt_queue_recv (prefix space by mpt_qpre, chunked move of the decoded bytes), which ZPE
-   framings reach whenever a zero pair arrives with less than two bytes of gap.
+   result stored back, mpt_queue_shift of the consumed prefix, and on MissingBuffer the recovery
+   with mpt_qpre + chunked move + second decoding; [dqueue_message] = mpt_message_get; RGrow = the
+   caller enlarging the ring with mpt_queue_prepare as mpt_stream_poll does): every history of
+   wire-ins, receives and enlargements on a ring of any capacity and offset delivers, in order,
+   the reference decodings of the frames at the front of the accepted bytes
+   ([C02_ring_reader_delivers]) and, composed with the writer, a prefix of the sent messages
+   ([C02_ring_to_ring]): nothing duplicated, merged, reordered or invented, for every cut of the
+   stream.  A genuine decoding error (not MissingBuffer) ends the reader history.
 
-   What is modelled and compared but NOT proved (hence "partial" overall): that recovery path.
-   It is
+   NOT proved (hence "partial" overall): liveness — that every sent message does arrive once all
+   bytes were wired in and enough receives were made; it is proved per frame at loop level
+   ([C02_stream_integrity_flat]) and
    decided against the specification [sspec_run] — received = sent, in order, nothing lost,
    duplicated or merged, and everything arrives after a drain — by the correspondence run on
    rings of many capacities and offsets with arbitrary cuts of the wire. *)
@@ -107,14 +108,14 @@ Theorem C02_stream_end_to_end :
       hs_msgs rs = firstn (length (hs_msgs rs)) (wh_done ws).
 Proof. exact stream_end_to_end. Qed.
 
-(* reader ring: full statement would not stop at a decoder error (see the header) *)
-Theorem C02_ring_reader_delivers_partial :
+(* reader ring, recovery after MissingBuffer and enlargement included *)
+Theorem C02_ring_reader_delivers :
   forall v buf off ops, off <= length buf ->
     let s := rh_run v (rh_init buf off) ops in
     exists C rest, rh_in s = C ++ rest /\ frames_of v (rh_msgs s) C.
 Proof. exact reader_history_delivers. Qed.
 
-Theorem C02_ring_to_ring_partial :
+Theorem C02_ring_to_ring :
   forall v wbuf woff wops ws, variant_ok v -> woff < length wbuf ->
     wh_run v (wh_init wbuf woff) wops = Some ws -> wh_cur ws = [] -> escr (eq_st (wh_e ws)) = 0 ->
     forall rbuf roff rops n, roff <= length rbuf ->
@@ -129,6 +130,14 @@ Example C02_ring_reader_example :
   let s := rh_run v_cobs (rh_init (repeat 238%N 8) 5)
              [RWire [3;1;2]%N; RRecv; RWire [2;3;0;2]%N; RRecv; RRecv; RWire [7;0;1;0]%N; RRecv; RRecv; RRecv; RRecv] in
   rh_stop s = false /\ rh_msgs s = [[1;2;0;3]; [7]; []]%N /\ rh_in s = [3;1;2;2;3;0;2;7;0;1;0]%N.
+Proof. vm_compute. auto. Qed.
+
+(* ... and a ZPE stream whose zero pairs exhaust the gap: MissingBuffer, recovery by prefix space,
+   enlargement of the ring by the caller, and still every message arrives *)
+Example C02_ring_reader_recovery_example :
+  let s := rh_run v_zpe (rh_init (repeat 238%N 8) 3)
+             [RWire [225;65;225;66]%N; RRecv; RGrow 8 238%N; RRecv; RWire [225;67;1;0]%N; RRecv; RGrow 8 238%N; RRecv; RRecv] in
+  rh_stop s = false /\ rh_msgs s = [[65;0;0;66;0;0;67;0;0]]%N.
 Proof. vm_compute. auto. Qed.
 
 (* non-vacuity of the composition: the stream of the ring example below, fed in two pieces *)
@@ -171,5 +180,5 @@ Print Assumptions C02_ring_writer_invariant.
 Print Assumptions C02_ring_writer_total.
 Print Assumptions C02_ring_writer_stream.
 Print Assumptions C02_stream_end_to_end.
-Print Assumptions C02_ring_reader_delivers_partial.
-Print Assumptions C02_ring_to_ring_partial.
+Print Assumptions C02_ring_reader_delivers.
+Print Assumptions C02_ring_to_ring.
